@@ -293,8 +293,17 @@ def daily(ck, S, DF, RID="C09-O5"):
     ck.require(len(calls) == 1, "rotateIfNeeded calls checkDailyRotation %d times" % len(calls))
     arg = skip_copies(calls[0]["args"][0])
     src = deref_local(ri, arg)
+    srcfn = ri
+    s0 = skip_copies(src) if isinstance(src, dict) else None
+    if isinstance(s0, dict) and s0.get("k") == "ref" and s0.get("dk") == "param":
+        # the date is taken by the caller (send() passes lmsg.time().date()): follow the parameter
+        idx_ = [i_ for i_, p_ in enumerate(ri.params) if p_.get("decl") == s0.get("decl")]
+        cl_ = [c_ for c_ in S.calls_to(S.send, "rotateIfNeeded")]
+        if idx_ and len(cl_) == 1 and len(cl_[0].get("args", [])) > idx_[0]:
+            src = deref_local(S.send, cl_[0]["args"][idx_[0]])
+            srcfn = S.send
     names, root = call_chain(src)
-    okd = [x.split("::")[-1] for x in names] == ["date", "time"] and isinstance(root, dict) and is_ref_to(root, ri.params[0]["decl"])
+    okd = [x.split("::")[-1] for x in names] == ["date", "time"] and isinstance(root, dict) and is_ref_to(root, srcfn.params[0]["decl"])
     ck.ob(RID, sitestr(ri, calls[0]), okd, "the record's date is lmsg.time().date()" if okd else "the record's date is %s" % describe(src), key="rotateIfNeeded|message-date")
     # with daily rotation every path dates the file with the record's date, after all rotation checks
     isdaily = S.option_pred("RotationDaily", ri)
